@@ -205,6 +205,30 @@ def decide(pid, tier, seed):
             f = [f for f in gi.funcs if f["name"] == x["function"]]
             if f and patc.search(f[0]["text"]):
                 x["specific"] = False
+    # conversions through the crate's `From` impls (`x.into()`, `usize::from(id)`): the impls are outside the verified
+    # text (rule R3b keeps them as external items), so Verus knows nothing about the value they return; a changed
+    # function that newly routes a value through them cannot be verified, which is not a refutation
+    conv = re.compile(r"\.\s*(into|try_into)\s*\(\s*\)|\b(usize|NonZeroUsize|Option|Self|NodeId)\s*::\s*(from|try_from)\s*\(")
+    for x in fails:
+        st = g["splice"]["functions"].get(x["function"], {})
+        f = [f for f in gi.funcs if f["name"] == x["function"]]
+        if x.get("specific") and f and (st.get("status") == "transplanted" or x["function"].startswith("from_")) and conv.search(f[0]["text"]):
+            x["specific"] = False
+            notes.append("%s converts a value through a From/Into impl that is outside the verified text: its failed obligations count as undecided" % x["function"])
+    # a changed function that calls something the verified text has never called (a std method, a trait method): what
+    # the verifier knows about that callee is unknown (vstd often has a specification that says nothing about the
+    # value), so a clause that fails there is a proof gap until a failing input shows otherwise
+    vocab = set(re.findall(r"\b([A-Za-z_][A-Za-z_0-9]*)\s*(?:::\s*<[^>]*>\s*)?\(", "".join(P.contracts_text().values())))
+    for x in fails:
+        st = g["splice"]["functions"].get(x["function"], {})
+        f = [f for f in gi.funcs if f["name"] == x["function"]]
+        if x.get("specific") and f and st.get("status") == "transplanted":
+            called = set(re.findall(r"\b([A-Za-z_][A-Za-z_0-9]*)\s*(?:::\s*<[^>]*>\s*)?\(", f[0]["text"]))
+            new_callees = sorted(called - vocab - {"if", "while", "match", "for", "return", "Some", "Ok", "Err", "None"})
+            if new_callees:
+                x["specific"] = False
+                notes.append("%s now calls %s, which the verified text never called: its failed obligations count as undecided unless a failing input is found"
+                             % (x["function"], ", ".join(new_callees)))
     if unc:
         notes.append("functions of /repo without a contract (emitted external_body, no specification): " + ", ".join(g["splice"]["uncontracted"]))
         pat = re.compile(r"\b(" + "|".join(re.escape(u) for u in unc) + r")\s*(::<[^>]*>)?\(")
